@@ -10,6 +10,8 @@ import (
 	"sync"
 
 	connect "github.com/bufbuild/connect-go"
+	"google.golang.org/protobuf/types/known/anypb"
+	"google.golang.org/protobuf/types/known/wrapperspb"
 )
 
 // Family "opts": option trees and interceptor order (C16), WithRecover (C19).
@@ -223,6 +225,9 @@ func buildOpts(nodes []optNode, side string, log *layerLog, rl *recoverLog, rec 
 					coded := func(cause error) *connect.Error {
 						e := connect.NewError(connect.CodeDataLoss, cause)
 						e.Meta().Set("X-Rec-Meta", "m")
+						if d, derr := anypb.New(wrapperspb.String("rec-detail")); derr == nil {
+							e.AddDetail(d) // ... and a detail
+						}
 						return e
 					}
 					if c := classOfPanic(v); c == "struct" {
@@ -573,11 +578,19 @@ func runOpts(raw json.RawMessage, seed int64, rec *Rec) {
 	if errors.As(cerr, &ce) {
 		msg = ce.Message()
 	}
-	recMeta, recTrl := "", ""
+	recMeta, recTrl, recDet := "", "", ""
 	if ce != nil {
 		recMeta, recTrl = ce.Meta().Get("X-Rec-Meta"), ce.Meta().Get("X-Rec-Trl")
+		for _, d := range ce.Details() {
+			var sv wrapperspb.StringValue
+			if a, ok := d.(*anypb.Any); ok && a.UnmarshalTo(&sv) == nil {
+				recDet += sv.GetValue()
+			} else {
+				recDet += "?"
+			}
+		}
 	}
 	rec.Add(E("outcome", "ok", cerr == nil, "code", codeOf(cerr), "msg", msg, "got", got, "handle_calls", rl.calls,
-		"seen", nzs(rl.seen), "aborted", aborted, "recmeta", recMeta, "rectrl", recTrl))
+		"seen", nzs(rl.seen), "aborted", aborted, "recmeta", recMeta, "rectrl", recTrl, "recdet", recDet))
 	rl.mu.Unlock()
 }
